@@ -21,16 +21,24 @@ Provides the predicate `when/2`.
 % Executes Goal when Condition becomes true.
 % Condition may consist of `ground(T)`, `nonvar(T)`, `C1,C2`, `C1;C2`.
 when(Condition, Goal) :-
+    when_(Condition, Goal, _Done).
+
+% Done is shared by every copy of the suspended goal (one per variable of
+% Condition) and is bound when the goal runs, so that it runs only once even
+% if several of these variables are bound by one unification, or have been
+% aliased to each other.
+when_(Condition, Goal, Done) :-
     (   when_condition(Condition) ->
         (   Condition ->
+            Done = true,
             Goal
         ;   term_variables(Condition, Vars),
             maplist(
-                [Goal, Condition]+\Var^(
+                [Goal, Condition, Done]+\Var^(
                     get_atts(Var, when_list(Whens0)) ->
-                    Whens = [when(Condition, Goal) | Whens0],
+                    Whens = [when(Condition, Goal, Done) | Whens0],
                     put_atts(Var, when_list(Whens))
-                ;   put_atts(Var, when_list([when(Condition, Goal)]))
+                ;   put_atts(Var, when_list([when(Condition, Goal, Done)]))
                 ),
                 Vars
             )
@@ -73,17 +81,28 @@ vars_remove_goal(Vars, Goal) :-
     ).
 
 reinforce_goal(Goal0, Goal) :-
+    Goal0 = when(Condition, G, Done),
     Goal = (
+        var(Done) ->
         term_variables(Goal0, Vars),
         when:vars_remove_goal(Vars, Goal0),
-        Goal0
+        when:when_(Condition, G, Done)
+    ;   true
+    ).
+
+merge_whens([], Whens, Whens).
+merge_whens([When|Whens0], Whens1, Whens) :-
+    (   member(When1, Whens1), When1 == When ->
+        merge_whens(Whens0, Whens1, Whens)
+    ;   Whens = [When|Whens2],
+        merge_whens(Whens0, Whens1, Whens2)
     ).
 
 verify_attributes(Var, Value, Goals) :-
     (   get_atts(Var, when_list(Whens)) ->
         (   var(Value) ->
             (   get_atts(Value, when_list(WhensValue)) ->
-                append(Whens, WhensValue, WhensNew),
+                merge_whens(Whens, WhensValue, WhensNew),
                 put_atts(Value, when_list(WhensNew))
             ;   put_atts(Value, when_list(Whens))
             ),
@@ -95,8 +114,8 @@ verify_attributes(Var, Value, Goals) :-
 
 gather_when_goals([], _) --> [].
 gather_when_goals([When|Whens], Var) -->
-    ( { term_variables(When, [V0|_]), Var == V0 } ->
-        [when:When]
+    ( { When = when(Condition, Goal, _), term_variables(When, [V0|_]), Var == V0 } ->
+        [when:when(Condition, Goal)]
     ;   []
     ),
     gather_when_goals(Whens, Var).
